@@ -56,6 +56,7 @@ def _stub_crc24(vc):
 
 
 FOLD = z3.Function('crc24_fold', z3.BitVecSort(sym.EXACT_W), z3.IntSort(), z3.BitVecSort(sym.EXACT_W))
+SHR8 = z3.Function('shr8', z3.BitVecSort(sym.EXACT_W), z3.IntSort(), z3.BitVecSort(sym.EXACT_W))
 
 
 @harness('C06', 'compute_crc24', functions=[SG + 'compute_crc24'], native='contracts.native.c06:replay')
@@ -71,7 +72,17 @@ def crc24_impl(vc):
     ctx.assume(FOLD(data0.t, z3.IntVal(0)) == z3.BitVecVal(SP.CRC24_INIT, W), silent=True)
 
     def sh(i):
-        return z3.LShR(data0.t, z3.Int2BV(8 * i, W))
+        """data0 >> 8i as the uninterpreted shr8(data0, i) plus its defining instance at i.  The definition is a case
+        split on i = 0..8 with constant shift amounts (the only values i takes, as 0 <= i <= length <= 8) and the general
+        int2bv term for every other i - the same function of i as LShR(data0, int2bv(8i)).  Keeping the symbol opaque lets
+        the crc step follow by congruence from `data == shr8(data0, i)`; only `data-shifted` has to open the definition,
+        and then with constant shifts instead of bit-level reasoning about int2bv of a symbolic integer (on which z3
+        decided the step obligations in 2-3 s for most seeds and not at all for others)."""
+        t = z3.LShR(data0.t, z3.Int2BV(8 * i, W))
+        for k in range(8, -1, -1):
+            t = z3.If(i == k, z3.LShR(data0.t, z3.BitVecVal(8 * k, W)), t)
+        ctx.assume(SHR8(data0.t, i) == t, silent=True)
+        return SHR8(data0.t, i)
 
     def inv(L):
         i = sym.as_int_term(L._i)
